@@ -308,7 +308,7 @@ def gen_inf_hc(rng, k):
     name = rng.choice(['tfi', 'xxz']) if engine in ('vumps2', 'two') else 'tfi'
     L = rng.choice([2, 2, 3, 4]) if name == 'tfi' else rng.choice([2, 2, 4])
     if name == 'tfi':
-        # (one-site engine: DensityMatrixMixer only without a Z_2 charge, see T13_charge_one_site_dm_mixer_refuted)
+        # (engines started from a random MPS of bond dimension 8 - MPS.from_desired_bond_dimension - have no charges)
         model = {'name': 'tfi', 'J': 1.0, 'g': rng.choice([0.5, 1.5, 2.0]), 'conserve': rng.choice(['None', 'parity']) if engine == 'two' else 'None'}
         idx = [0] * L
     else:
@@ -321,8 +321,9 @@ def gen_inf_hc(rng, k):
     if engine == 'two':
         opts['mixer'] = rng.choice([True, 'DensityMatrixMixer', 'SubspaceExpansion'])
     elif engine == 'single':
-        # (SubspaceExpansion, the default mixer of the one-site engine, raises with explicit_plus_hc: F13.1; so does combine=True: F13.2)
-        opts['mixer'] = 'DensityMatrixMixer'
+        # (SubspaceExpansion, the default mixer of the one-site engine, raises with explicit_plus_hc: F13.1; so does combine=True: F13.2.
+        # Without a mixer the one-site engine keeps the bond dimension of the initial state: start from a random MPS with chi = 8)
+        opts['mixer'] = None
         opts['combine'] = False
         opts['N_sweeps_check'] = rng.choice([1, 4])      # (odd update_env = N_sweeps_check // 2: F13.3)
     elif engine == 'vumps2':
@@ -334,7 +335,7 @@ def gen_inf_hc(rng, k):
     if engine.startswith('vumps'):
         opts['combine'] = False
     return {'model': model, 'L': L, 'bc': 'infinite', 'engine': engine, 'init': [names[i] for i in idx], 'init_idx': idx, 'options': opts,
-            'trace': False, 'init_chi': 8 if engine == 'vumps1' else None, 'compare_without_hc': True, 'stream': 'dmrg-infinite-plus-hc'}
+            'trace': False, 'init_chi': 8 if engine in ('vumps1', 'single') else None, 'compare_without_hc': True, 'stream': 'dmrg-infinite-plus-hc'}
 
 
 def gen_inf_trace(rng):
